@@ -109,9 +109,5 @@ def run(ctx):
 
 
 def parse_decls():
-    src = open(os.path.join(LEAN, "HbsLms", "Generated", "Decls.lean")).read()
-    out = []
-    for m in re.finditer(r'⟨"([^"]*)", "([^"]*)", \[([^\]]*)\], \[(.*?)\]⟩(?:,|\n\])', src, re.S):
-        fields_ = [(a, b, c == "true") for a, b, c in re.findall(r'⟨"([^"]*)", "([^"]*)", (true|false)⟩', m.group(4))]
-        out.append({"file": m.group(1), "name": m.group(2), "derives": re.findall(r'"([^"]*)"', m.group(3)), "fields": fields_})
-    return out
+    meta = json.load(open(os.path.join(LEAN, "HbsLms", "Generated", "meta.json")))
+    return [{"file": d["file"], "name": d["name"], "derives": d["derives"], "fields": [tuple(f) for f in d["fields"]]} for d in meta["decls"]]
